@@ -27,18 +27,24 @@ import core
 import lib_seqindex as L
 
 PROP = "C15"
-CFG = {"quick": {"index": "SeqIndex_index", "slice": "SeqIndex_slice", "xslice": "SeqIndex_xslice"},
-       "thorough": {"index": "SeqIndex_index_big", "slice": "SeqIndex_slice_big", "xslice": "SeqIndex_xslice_big"}}
+RUNS = {"quick": [("index", "SeqIndex_index"), ("xslice", "SeqIndex_xslice"), ("slice", "SeqIndex_slice")],
+        "thorough": [("index", "SeqIndex_index_big"), ("slice", "SeqIndex_slice_mixed"), ("xslice", "SeqIndex_xslice_big"),
+                     ("slice", "SeqIndex_slice_big")]}
 CHUNK = 120000
 
 
 class R(object):
     """one realisation of a model cell on compiled code"""
-    __slots__ = ("mod", "fn", "args", "op", "kind", "n", "flavor", "key", "val", "desc", "ref")
+    __slots__ = ("mod", "fn", "args", "op", "kind", "n", "flavor", "key", "val", "base", "extra", "ref")
 
-    def __init__(self, mod, fn, args, op, kind, n, flavor, key, val, desc, ref):
+    def __init__(self, mod, fn, args, op, kind, n, flavor, key, val, base, extra, ref):
         self.mod, self.fn, self.args, self.op, self.kind, self.n = mod, fn, args, op, kind, n
-        self.flavor, self.key, self.val, self.desc, self.ref = flavor, key, val, desc, ref
+        self.flavor, self.key, self.val, self.base, self.extra, self.ref = flavor, key, val, base, extra, ref
+
+    @property
+    def desc(self):
+        """the case descriptor: spec-side description of the cell (shared) + how it was realised"""
+        return dict(self.base, **self.extra)
 
     def call(self):
         x = L.arg(L.container(self.kind, self.n, self.flavor))
@@ -50,13 +56,17 @@ class R(object):
         return ["M", [self.fn, x] + a, True]
 
 
+VAR = {v: {"variant": v} for v in ("main", "int-typed", "const", "index-object", "ssize-typed")}
+
+
 def log(t0, msg):
     if os.environ.get("VERIF_VERBOSE"):
         sys.stderr.write("[c15 %6.1fs] %s\n" % (time.time() - t0, msg))
 
 
-def flavors(kind, op):
-    return ("ascii", "ucs2", "ucs4") if kind == "str" and op == "get" else ("ascii",)
+def flavors(c, op):
+    """str containers in three character widths where Cython's own str code runs (typed declaration, reading)"""
+    return ("ascii", "ucs2", "ucs4") if c["kind"] == "str" and c["decl"] == "typed" and op == "get" else ("ascii",)
 
 
 def cell(c):
@@ -78,7 +88,7 @@ def realise_index(rec, rng, out, skipped):
         v = int(ks)
         ref, imp, hz = cell(cl)
         base = {"part": "index", "op": op, "decl": c["decl"], "kind": kind, "model": hz, "container_none": n < 0}
-        for fl in flavors(kind, op):
+        for fl in flavors(c, op):
             val = L.new_value(kind, fl) if op == "set" else None
             if t == "obj":
                 if v < 20000:
@@ -91,7 +101,7 @@ def realise_index(rec, rng, out, skipped):
                              L.OFALSE: (False, "bool"), L.OTRUE: (True, "bool")}[v]]
                 for k, kc in keys:
                     out.append(R("c15idx", "%s_%s_obj" % (op, d), [k], op, kind, n, fl, k, val,
-                                 dict(base, itype="obj", key=kc), ref))
+                                 base, dict(itype="obj", key=kc), ref))
             elif t == "const":
                 rv = L.real_value("const", v)
                 nm = L.kname(rv) if abs(rv) <= 10 else dict((x, y) for y, x in L.CONST_EXT).get(rv)
@@ -99,12 +109,12 @@ def realise_index(rec, rng, out, skipped):
                     skipped[0] += 1
                     continue
                 out.append(R("c15idx", "%sk_%s_%s" % (op, d, nm), [], op, kind, n, fl, rv, val,
-                             dict(base, itype="const", key=key_class(v)), ref))
+                             base, dict(itype="const", key=key_class(v)), ref))
             else:
                 for tag, _ct, bits, signed, _m in L.RT_BY_MODEL[t]:
                     rv = L.real_value(t, v, bits, signed)
                     out.append(R("c15idx", "%s_%s_%s" % (op, d, tag), [rv], op, kind, n, fl, rv, val,
-                                 dict(base, itype=tag, key=key_class(v)), ref))
+                                 base, dict(itype=tag, key=key_class(v)), ref))
 
 
 def bound(b):
@@ -131,21 +141,21 @@ def realise_slice(rec, rng, out, skipped):
         ref, imp, hz = cell(cl)
         base = {"part": "slice", "op": op, "decl": c["decl"], "kind": kind, "model": hz, "container_none": n < 0,
                 "forms": fs + fe, "bounds": ca + "/" + cb, "rhs": cse["rhs"]}
-        for fl in flavors(kind, op):
+        for fl in flavors(c, op):
             val = L.new_values(kind, m, fl, cse["rhs"]) if op == "set" else None
             key = slice(pa, pb)
-            out.append(R("c15sl", "s%s_%s_%s%s" % (op, d, fs, fe), [pa, pb], op, kind, n, fl, key, val, dict(base, variant="main"), ref))
-            if "o" not in (fs, fe) and "c" in (fs, fe) and all(x is None or abs(x) <= 12 for x in (pa, pb)):
+            out.append(R("c15sl", "s%s_%s_%s%s" % (op, d, fs, fe), [pa, pb], op, kind, n, fl, key, val, base, VAR["main"], ref))
+            if c["decl"] == "typed" and "o" not in (fs, fe) and "c" in (fs, fe) and all(x is None or abs(x) <= 12 for x in (pa, pb)):
                 out.append(R("c15sl", "s%s_%s_%s%s" % (op, d, fs.replace("c", "i"), fe.replace("c", "i")), [pa, pb], op, kind, n, fl,
-                             key, val, dict(base, variant="int-typed"), ref))
+                             key, val, base, VAR["int-typed"], ref))
             if "o" not in (fs, fe) and pa in L.SLICE_CONSTS and pb in L.SLICE_CONSTS:
                 out.append(R(kmod, "s%sk_%s_%s_%s" % (op, d, L.kname(pa), L.kname(pb)), [], op, kind, n, fl, key, val,
-                             dict(base, variant="const"), ref))
+                             base, VAR["const"], ref))
             if (isinstance(pa, int) and fs == "o" or isinstance(pb, int) and fe == "o") and rng.random() < 0.2:
                 qa = L.Ix(pa) if isinstance(pa, int) and fs == "o" else pa
                 qb = L.Ix(pb) if isinstance(pb, int) and fe == "o" else pb
                 out.append(R("c15sl", "s%s_%s_%s%s" % (op, d, fs, fe), [qa, qb], op, kind, n, fl, slice(qa, qb), val,
-                             dict(base, variant="index-object"), ref))
+                             base, VAR["index-object"], ref))
 
 
 def xval(v):
@@ -163,18 +173,18 @@ def realise_xslice(rec, rng, out, skipped):
         ref, imp, hz = cell(cl)
         base = {"part": "xslice", "op": op, "decl": c["decl"], "kind": kind, "model": hz, "container_none": False, "rhs": cse["rhs"],
                 "step": "none" if pc is None else ("zero" if pc == 0 else key_class(cse["st"]))}
-        for fl in flavors(kind, op):
+        for fl in flavors(c, op):
             val = L.new_values(kind, m, fl, cse["rhs"]) if op == "set" else None
             key = slice(pa, pb, pc)
-            out.append(R("c15xs", "x%s_%s_o" % (op, d), [pa, pb, pc], op, kind, n, fl, key, val, dict(base, variant="main"), ref))
+            out.append(R("c15xs", "x%s_%s_o" % (op, d), [pa, pb, pc], op, kind, n, fl, key, val, base, VAR["main"], ref))
             if all(x is not None and L.RMIN <= x <= L.RMAX for x in (pa, pb, pc)):
-                out.append(R("c15xs", "x%s_%s_c" % (op, d), [pa, pb, pc], op, kind, n, fl, key, val, dict(base, variant="ssize-typed"), ref))
+                out.append(R("c15xs", "x%s_%s_c" % (op, d), [pa, pb, pc], op, kind, n, fl, key, val, base, VAR["ssize-typed"], ref))
             if (pa, pb, pc) in L.X_SHAPES:
                 out.append(R("c15xs", "x%sk_%s_%d" % (op, d, L.X_SHAPES.index((pa, pb, pc))), [], op, kind, n, fl, key, val,
-                             dict(base, variant="const"), ref))
+                             base, VAR["const"], ref))
             if rng.random() < 0.1 and any(isinstance(x, int) for x in (pa, pb, pc)):
                 q = [L.Ix(x) if isinstance(x, int) else x for x in (pa, pb, pc)]
-                out.append(R("c15xs", "x%s_%s_o" % (op, d), q, op, kind, n, fl, slice(*q), val, dict(base, variant="index-object"), ref))
+                out.append(R("c15xs", "x%s_%s_o" % (op, d), q, op, kind, n, fl, slice(*q), val, base, VAR["index-object"], ref))
 
 
 REALISE = {"index": realise_index, "slice": realise_slice, "xslice": realise_xslice}
@@ -227,67 +237,12 @@ def corrupt(outcome):
     return "!TypeError" if outcome != "!TypeError" else "!IndexError"
 
 
-def run(tier, seed):
-    t0 = time.time()
-    rng = random.Random(seed)
-    rep = core.Reporter(PROP)
-    cov = {"tlc": []}
-    mods = L.modules()
-    core.scratch(), core.subdir("tlc"), core.subdir("build")   # created once, before the worker threads need them
-    pool = concurrent.futures.ThreadPoolExecutor(max_workers=8)
-    f_build = pool.submit(core.build_many, [core.BuildSpec(k, v) for k, v in sorted(mods.items())], None, 5)
-    w = 5 if tier == "quick" else 8
-    f_tlc = {p: pool.submit(core.tlc, "SeqIndex", CFG[tier][p], w, None, 1500 if tier == "quick" else 3000) for p in ("slice", "xslice", "index")}
-    f_strict = pool.submit(core.tlc, "SeqIndex", "SeqIndex_strict", 2, None, 600)
-
-    # ---- model checking
-    printed = {}
-    states = distinct = 0
-    for p, f in f_tlc.items():
-        r = f.result()
-        cov["tlc"].append(dict(r.summary(), config=CFG[tier][p], violation=r.violation))
-        if not r.ok:
-            sys.stderr.write(r.out[-3000:])
-            core.die("TLC %s: %s" % (CFG[tier][p], r.violation or "failed"))
-        printed[p] = [x for x in r.printed if x.get("part") == p]
-        states += r.generated
-        distinct += r.distinct
-        if len(printed[p]) < 100 or len(printed[p]) != r.distinct - 1 - _groups(printed[p]):
-            core.die("SeqIndex %s: %d rows published for %d distinct states" % (p, len(printed[p]), r.distinct))
-    for nm, f, inv in (("strict", f_strict, "ImplAgrees"),):
-        r = f.result()
-        cov["tlc"].append(dict(r.summary(), config="SeqIndex_" + nm, expected_violation=inv, violation=r.violation))
-        states += r.generated
-        distinct += r.distinct
-        if r.violation != inv:
-            sys.stderr.write(r.out[-3000:])
-            core.die("SeqIndex_%s: TLC was expected to refute %s (the model's crop_slice hazard), got %r" % (nm, inv, r.violation))
-    log(t0, "TLC done: %d states" % states)
-    kl = classes(printed["index"] + printed["slice"] + printed["xslice"])
-    cov["model_case_classes"] = kl
-    missing = [k for k in NEEDED if not kl.get(k)]
-    if missing:
-        core.die("vacuous model: no published cell of class %s" % missing)
-
-    # ---- build
-    builds = {b.name: b for b in f_build.result()}
-    bad = [b for b in builds.values() if not b.ok]
-    if bad:
-        for b in bad:
-            rep.disagree({"part": "build", "module": b.name, "stage": b.stage}, "build-failed", {"errors": (b.errors or "")[-3000:]})
-        rc = rep.finish()
-        core.write_evidence(PROP, tier, seed, "model_checking", {"evaluations": len(bad), "distinct_nontrivial": 0, "states": states,
-                            "transitions": states, "traces_validated_against_impl": 0, "samples": ["build failed: " + bad[0].name]},
-                            time.time() - t0, violations=len(bad))
-        return rc
-
-    log(t0, "builds done")
-    # ---- realisations, S vs P
+def process(part, recs, tier, rng, rep, builds, mods, pool, acc, t0):
+    """replay the published rows of one TLC run on compiled code"""
     rs = []
     skipped = [0]
-    for p in ("index", "slice", "xslice"):
-        for rec in printed[p]:
-            REALISE[p](rec, rng, rs, skipped)
+    for rec in recs:
+        REALISE[part](rec, rng, rs, skipped)
     want = []
     ndrift = 0
     for r in rs:
@@ -304,14 +259,13 @@ def run(tier, seed):
         want.append(e)
     if ndrift:
         rep.finish()   # exits 2
-    log(t0, "%d realisations, no drift" % len(rs))
+    log(t0, "%s: %d realisations, no drift" % (part, len(rs)))
 
-    # ---- C: compiled code, one call table per module, chunks in parallel
-    # cells where the model reaches C undefined behaviour go into their own small tables (a crash costs a child restart)
+    # cells where the model reaches C undefined behaviour go into their own small tables (a crash costs a child restart),
+    # and only a stratified sample of them is executed: one per (function, class of bounds) first, then random ones
     by_mod = {}
     for i, r in enumerate(rs):
         by_mod.setdefault(r.mod + ("!hz" if r.desc["model"] == "ub" else ""), []).append(i)
-    # ... and only a stratified sample of them is executed: one per (function, class of bounds) first, then random ones
     hz_cap = 24 if tier == "quick" else 150
     hz_all = sorted(i for k, v in by_mod.items() if "!" in k for i in v)
     strata = {}
@@ -329,15 +283,14 @@ def run(tier, seed):
     for mod, idxs in sorted(by_mod.items(), key=lambda kv: -len(kv[1])):
         step = 75 if "!" in mod else CHUNK
         for j in range(0, len(idxs), step):
-            part = idxs[j:j + step]
-            jobs.append((mod, part, pool.submit(safe_run_calls, builds[mod.split("!")[0]], [rs[i].call() for i in part],
-                                                ("hz%d" if "!" in mod else "t%d") % (j // step))))
+            sel = idxs[j:j + step]
+            jobs.append((sel, pool.submit(safe_run_calls, builds[mod.split("!")[0]], [rs[i].call() for i in sel],
+                                          "%s_%s%d" % (part, "hz" if "!" in mod else "t", j // step))))
     got = [None] * len(rs)
-    for mod, part, f in jobs:
-        for i, o in zip(part, f.result()):
+    for sel, f in jobs:
+        for i, o in zip(sel, f.result()):
             got[i] = o
-    pool.shutdown()
-    log(t0, "calls done")
+    log(t0, "%s: calls done" % part)
 
     nbad = 0
     for i, (r, e, o) in enumerate(zip(rs, want, got)):
@@ -349,32 +302,98 @@ def run(tier, seed):
                                                             "source": [ln for ln in mods[r.mod].split("\n\n") if ("def %s(" % r.fn) in ln][:1]})
     # binding demonstration: corrupted expectations must be rejected
     good = [i for i in range(len(rs)) if got[i] == want[i] and i not in skipped_hz]
-    for i in rng.sample(good, min(60, len(good))):
+    for i in rng.sample(good, min(40, len(good))):
         r = rs[i]
         if L.expected_obs(corrupt(r.ref), r.op, r.kind, r.n, r.flavor) == got[i]:
             core.die("binding self-test: corrupted expectation %r accepted for %s" % (corrupt(r.ref), r.fn))
-
-    distinct_calls = {}
     for r in rs:
         if r.n >= 1:
-            distinct_calls[(r.fn, r.flavor, r.n, repr(r.args))] = 1
-    per_part = {}
-    for r in rs:
-        per_part[r.desc["part"]] = per_part.get(r.desc["part"], 0) + 1
-    smp = [rs[i] for i in rng.sample(range(len(rs)), 4)]
+            acc["distinct"].add(hash((r.fn, r.flavor, r.n, repr(r.args), repr(r.val))))
+    acc["calls"] += len(rs) - len(skipped_hz)
+    acc["per_part"][part] = acc["per_part"].get(part, 0) + len(rs) - len(skipped_hz)
+    acc["hz_all"] += len(hz_all)
+    acc["hz_run"] += len(chosen)
+    acc["model_only"] += skipped[0]
+    acc["bad"] += nbad
+    acc["selftest"] += min(40, len(good))
+    acc["samples"] += [{"call": rs[i].call()[:2], "spec_outcome": rs[i].ref, "desc": rs[i].desc} for i in rng.sample(range(len(rs)), 2)]
+
+
+def run(tier, seed):
+    t0 = time.time()
+    rng = random.Random(seed)
+    rep = core.Reporter(PROP)
+    cov = {"tlc": []}
+    mods = L.modules()
+    core.scratch(), core.subdir("tlc"), core.subdir("build")   # created once, before the worker threads need them
+    pool = concurrent.futures.ThreadPoolExecutor(max_workers=8)
+    tpool = concurrent.futures.ThreadPoolExecutor(max_workers=2 if tier == "quick" else 1)
+    f_build = pool.submit(core.build_many, [core.BuildSpec(k, v) for k, v in sorted(mods.items())], None, 5)
+    w = 6 if tier == "quick" else 10
+    f_tlc = [(p, cfg, tpool.submit(core.tlc, "SeqIndex", cfg, w, None, 1500 if tier == "quick" else 5000)) for p, cfg in RUNS[tier]]
+    f_strict = tpool.submit(core.tlc, "SeqIndex", "SeqIndex_strict", 2, None, 600)
+
+    acc = {"distinct": set(), "calls": 0, "per_part": {}, "hz_all": 0, "hz_run": 0, "model_only": 0, "bad": 0, "selftest": 0, "samples": []}
+    states = distinct = cells = 0
+    kl = {}
+    builds = None
+    for p, cfg, f in f_tlc:
+        r = f.result()
+        cov["tlc"].append(dict(r.summary(), config=cfg, violation=r.violation))
+        if not r.ok:
+            sys.stderr.write(r.out[-3000:])
+            core.die("TLC %s: %s" % (cfg, r.violation or "failed"))
+        recs = [x for x in r.printed if x.get("part") == p]
+        states += r.generated
+        distinct += r.distinct
+        if len(recs) < 100 or len(recs) != r.distinct - 1 - _groups(recs):
+            core.die("SeqIndex %s: %d rows published for %d distinct states" % (cfg, len(recs), r.distinct))
+        r.out, r.printed = "", []
+        log(t0, "TLC %s done: %d states" % (cfg, r.distinct))
+        for k, v in classes(recs).items():
+            kl[k] = kl.get(k, 0) + v
+        cells += sum(len(x["row"]) for x in recs)
+        if builds is None:
+            builds = {b.name: b for b in f_build.result()}
+            bad = [b for b in builds.values() if not b.ok]
+            if bad:
+                for b in bad:
+                    rep.disagree({"part": "build", "module": b.name, "stage": b.stage}, "build-failed", {"errors": (b.errors or "")[-3000:]})
+                rc = rep.finish()
+                core.write_evidence(PROP, tier, seed, "model_checking", {"evaluations": len(bad), "distinct_nontrivial": 0, "states": states,
+                                    "transitions": states, "traces_validated_against_impl": 0, "samples": ["build failed: " + bad[0].name]},
+                                    time.time() - t0, violations=len(bad))
+                return rc
+            log(t0, "builds done")
+        process(p, recs, tier, rng, rep, builds, mods, pool, acc, t0)
+        del recs
+    r = f_strict.result()
+    cov["tlc"].append(dict(r.summary(), config="SeqIndex_strict", expected_violation="ImplAgrees", violation=r.violation))
+    states += r.generated
+    distinct += r.distinct
+    if r.violation != "ImplAgrees":
+        sys.stderr.write(r.out[-3000:])
+        core.die("SeqIndex_strict: TLC was expected to refute ImplAgrees (the model's crop_slice hazard), got %r" % (r.violation,))
+    pool.shutdown()
+    tpool.shutdown()
+    cov["model_case_classes"] = kl
+    missing = [k for k in NEEDED if not kl.get(k)]
+    if missing:
+        core.die("vacuous model: no published cell of class %s" % missing)
+
     cov.update({
         "states": states, "distinct_states": distinct, "transitions": states,
-        "traces_validated_against_impl": len(rs) - len(skipped_hz), "evaluations": len(rs) - len(skipped_hz),
-        "model_hazard_cells": len(hz_all), "model_hazard_cells_executed": len(chosen), "distinct_nontrivial": len(distinct_calls),
-        "exhaustive": True, "model_cells": sum(len(x["row"]) for p in printed.values() for x in p),
-        "model_only_cells_not_replayed": skipped[0], "calls_per_part": per_part, "functions_compiled": sum(v.count("def ") for v in mods.values()),
-        "disagreeing_calls": nbad,
+        "traces_validated_against_impl": acc["calls"], "evaluations": acc["calls"], "distinct_nontrivial": len(acc["distinct"]),
+        "exhaustive": True, "model_cells": cells, "model_only_cells_not_replayed": acc["model_only"],
+        "model_hazard_cells": acc["hz_all"], "model_hazard_cells_executed": acc["hz_run"],
+        "calls_per_part": acc["per_part"], "functions_compiled": sum(v.count("def ") for v in mods.values()),
+        "disagreeing_calls": acc["bad"], "corrupted_expectations_rejected": acc["selftest"],
         "rule": "TLC enumerates every (declaration typed/object x kind, operation, length -1(None)..MaxLen, index type, index value in "
                 "-VMag..VMag + scaled type bounds) and every (start, stop[, step]) over absent/C/object bounds incl. None, float, "
                 "Py_ssize_t bounds and ints beyond; each published cell is executed on compiled code in every realisation "
-                "(real C types of the model type, constant, int-typed, __index__ object; str in 3 widths). Non-trivial = distinct "
+                "(real C types of the model type, constant, int-typed, __index__ object; typed str in 3 widths). Non-trivial = distinct "
                 "(function, container, arguments) with a non-empty container",
-        "samples": [{"call": r.call()[:2], "spec_outcome": r.ref, "desc": r.desc} for r in smp],
+        "samples": acc["samples"],
     })
     rc = rep.finish()
     cov["known_findings"] = rep.kf_summary()
@@ -383,7 +402,8 @@ def run(tier, seed):
                                      "the bound of the real type (validated case by case: S = P on the real values)",
                                      "CPython's own slot functions (mp_subscript, sq_item, PySequence_GetSlice, PySlice_*) are modelled by the reference",
                                      "index types wider than Py_ssize_t exist only in the model on LP64 (the third branch of __Pyx_fits_Py_ssize_t)",
-                                     "default directives only (wraparound=True, boundscheck=True); values stored into a bytearray are valid bytes"],
+                                     "default directives only (wraparound=True, boundscheck=True); values stored into a bytearray are valid bytes; "
+                                     "C-integer indexing of a str/bytes/bytearray-typed variable holding None is excluded (nonecheck=False)"],
                         violations=rep.n_violations())
     return rc
 
